@@ -1115,6 +1115,10 @@ class Terms:
                     base = self.place(l, p[:-1], bb, idx, depth + 1)
                     it = self.place(pj[-1]["l"], (), bb, idx, depth + 1) if pj[-1]["k"] == "index" else ("const", pj[-1]["offset"])
                     return ("elem_at", base, it)
+                if pj and pj[-1]["k"] == "subslice" and not any(e["k"] in ("index", "cindex", "subslice") for e in pj[:-1]):
+                    # `[a, b, rest @ ..]` patterns: ("subslice_at", base, from, to, counted-from-the-end?)
+                    base = self.place(l, p[:-1], bb, idx, depth + 1)
+                    return ("subslice_at", base, pj[-1]["from"], pj[-1]["to"], bool(pj[-1].get("from_end")))
             return self.place(l, p, bb, idx, depth)
         return ("opaque", op.get("s", "?"))
 
